@@ -18,7 +18,7 @@ if len(sys.argv) > 3 and sys.argv[3] == "--auto":
     demo_cmd = [a for a in shlex.split(runline) if a.split("=")[0] not in ("GOFLAGS", "GOPROXY", "GOSUMDB", "GOTOOLCHAIN") or "=" not in a]
     if any("=" in a and a.split("=")[0].isupper() for a in demo_cmd[:3]) and demo_cmd[0] != "env":
         demo_cmd = ["env"] + demo_cmd  # e.g. GOARCH=386 go test ...
-    outname = {"2": {"A": "C", "B": "D"}, "3": {"A": "E", "B": "F"}, "4": {"A": "G", "B": "H"}, "5": {"A": "I", "B": "J"}, "6": {"A": "K", "B": "L"}}[rnd][which]
+    outname = {"2": {"A": "C", "B": "D"}, "3": {"A": "E", "B": "F"}, "4": {"A": "G", "B": "H"}, "5": {"A": "I", "B": "J"}, "6": {"A": "K", "B": "L"}, "7": {"A": "M", "B": "N"}}[rnd][which]
 else:
     demo_dest = sys.argv[3]
     demo_cmd = sys.argv[4:]
@@ -79,6 +79,8 @@ try:
         else:
             shutil.copy(s, os.path.join(outdir, f + (".txt" if f.endswith(".go") else "")))
     notes = open(os.path.join(src, "NOTES.md")).read() if os.path.exists(os.path.join(src, "NOTES.md")) else ""
+    if not notes and os.path.exists(os.path.join(src, "HOWTO.txt")):
+        notes = "\n".join(l for l in open(os.path.join(src, "HOWTO.txt")).read().splitlines() if not l.startswith(("DEST:", "RUN:")))
     meta["needs_to_manifest"] = os.environ.get("SEED_NEEDS", "")
     meta["agent_notes_head"] = notes[:700]
     json.dump(meta, open(os.path.join(outdir, "meta.json"), "w"), indent=1)
